@@ -45,7 +45,7 @@ pub fn run(ctx: &Ctx) -> Collector {
         let b = &bs[bi];
         let g = r::geo_of(b.v);
         let n = g.n;
-        let mk = |k: Option<u8>| Opts { mode: Some(b.m as u8), ecl: Some(b.e as u8), version: Some(b.v as u8), mask: k };
+        let mk = |k: Option<u8>| Opts { mode: Some(b.m as u8), ecl: Some(b.e as u8), version: Some(b.v as u8), mask: k, order: 0 };
         let mut syms: Vec<(Option<u8>, Vec<bool>, usize)> = vec![]; // (forced mask, values, mask named in format info)
         for k in (0..8u8).map(Some).chain(std::iter::once(None)) {
             let o = mk(k);
